@@ -14,7 +14,7 @@ macro "chan_unfold" : tactic => `(tactic| simp only [P.rest, P.peek, P.peekNext,
 
 /-! ## pure helpers: the types they can return live on the default channel -/
 
-theorem tryParseInteger_plain {s : List Char} {r : NumRes} (h : tryParseInteger s = some r) : plainTy r.ty = true := by
+theorem tryParseInteger_plain {s : List Char} {r : NumRes} (h : tryParseInteger s = some r) : tokOK .DEFAULT r.ty r.payload = true := by
   unfold tryParseInteger at h
   simp only at h
   split at h
@@ -23,14 +23,14 @@ theorem tryParseInteger_plain {s : List Char} {r : NumRes} (h : tryParseInteger 
     · simp at h
     · simp only [Option.some.injEq] at h; subst h; rfl
 
-theorem tryParseHexInteger_plain {s : List Char} {r : NumRes} (h : tryParseHexInteger s = some r) : plainTy r.ty = true := by
+theorem tryParseHexInteger_plain {s : List Char} {r : NumRes} (h : tryParseHexInteger s = some r) : tokOK .DEFAULT r.ty r.payload = true := by
   unfold tryParseHexInteger at h
   simp only at h
   split at h
   · simp at h
   · split at h <;> (simp only [Option.some.injEq] at h; subst h; rfl)
 
-theorem tryParseFloat_plain {s : List Char} {r : NumRes} (h : tryParseFloat s = some r) : plainTy r.ty = true := by
+theorem tryParseFloat_plain {s : List Char} {r : NumRes} (h : tryParseFloat s = some r) : tokOK .DEFAULT r.ty r.payload = true := by
   unfold tryParseFloat at h
   split at h
   · split at h
@@ -42,14 +42,14 @@ theorem tryParseFloat_plain {s : List Char} {r : NumRes} (h : tryParseFloat s = 
   · simp at h
 
 theorem tryParseDecimal_plain {s : List Char} {a b : Bool} {r : NumRes} (h : tryParseDecimal s a b = some r) :
-    plainTy r.ty = true := by
+    tokOK .DEFAULT r.ty r.payload = true := by
   unfold tryParseDecimal at h
   simp only at h
-  have hi : ∀ r, (if a = true then tryParseInteger s else none) = some r → plainTy r.ty = true := by
+  have hi : ∀ r, (if a = true then tryParseInteger s else none) = some r → tokOK .DEFAULT r.ty r.payload = true := by
     intro r hr; split at hr
     · exact tryParseInteger_plain hr
     · simp at hr
-  have hf : ∀ r, (if b = true then tryParseFloat s else none) = some r → plainTy r.ty = true := by
+  have hf : ∀ r, (if b = true then tryParseFloat s else none) = some r → tokOK .DEFAULT r.ty r.payload = true := by
     intro r hr; split at hr
     · exact tryParseFloat_plain hr
     · simp at hr
@@ -63,14 +63,14 @@ theorem tryParseDecimal_plain {s : List Char} {a b : Bool} {r : NumRes} (h : try
   · simp at h
 
 theorem numericChoice_plain {view : List Char} {sd : Bool} {res : NumRes} {cx : Bool}
-    (h : numericChoice view sd = some (res, cx)) : plainTy res.ty = true := by
+    (h : numericChoice view sd = some (res, cx)) : tokOK .DEFAULT res.ty res.payload = true := by
   unfold numericChoice at h
   simp only at h
-  have hh : ∀ r, (if sd = true then none else tryParseHexInteger view) = some r → plainTy r.ty = true := by
+  have hh : ∀ r, (if sd = true then none else tryParseHexInteger view) = some r → tokOK .DEFAULT r.ty r.payload = true := by
     intro r hr; split at hr
     · simp at hr
     · exact tryParseHexInteger_plain hr
-  have hdd : ∀ r, tryParseDecimal view (!sd) true = some r → plainTy r.ty = true :=
+  have hdd : ∀ r, tryParseDecimal view (!sd) true = some r → tokOK .DEFAULT r.ty r.payload = true :=
     fun r hr => tryParseDecimal_plain hr
   split at h
   · rename_i d hx h1 h2
@@ -118,7 +118,7 @@ def litTy (ty : TokenType) : Prop :=
   ty = .BitTestingLiteral ∨ ty = .DateTimeLiteral ∨ ty = .DateLiteral ∨ ty = .NameLiteral ∨ ty = .TimeLiteral ∨
   ty = .HexStringLiteral ∨ ty = .StringLiteral
 
-theorem litTy.plain {ty : TokenType} (h : litTy ty) : plainTy ty = true := by
+theorem litTy.plain {ty : TokenType} (h : litTy ty) : tokOK .DEFAULT ty .reg = true := by
   rcases h with h | h | h | h | h | h | h <;> subst h <;> rfl
 
 theorem resolveStringLiteralEnding_chan {Q : TokenType → Prop} (hQ : ∀ ty, litTy ty → Q ty) :
@@ -179,7 +179,7 @@ theorem lexPredictedComment_chan {Q : Bool → Prop} (hQ : ∀ a, Q a) : ChanR l
   unfold lexPredictedComment; chan_unfold
   chan_auto [hQ, fuelOfRest_chan, predictedOpenLoop_chan, predictedMacroLoop_chan]
 
-theorem lexExpectedToken_chan (cfg : Cfg) (nc : Option Char) (ty : TokenType) (ch : Channel) (hok : chanOK ch ty = true)
+theorem lexExpectedToken_chan (cfg : Cfg) (nc : Option Char) (ty : TokenType) (ch : Channel) (hok : tokOK ch ty .none = true)
     {Q : Unit → Prop} (hQ : ∀ a, Q a) : ChanR (lexExpectedToken cfg nc ty ch) Q := by
   unfold lexExpectedToken; chan_unfold
   chan_auto [hQ, hok]
@@ -190,11 +190,11 @@ theorem lexExpectedToken_chan (cfg : Cfg) (nc : Option Char) (ty : TokenType) (c
 /-- the channel `dispatch_macro_call_or_stat` gives the keyword token -/
 def kwChan (t : TokenType) : Channel := if tokOneOf t [.KwmStr, .KwmNrStr] then .HIDDEN else .DEFAULT
 
-theorem mkeywords_chan : ∀ p ∈ TokenType.MKEYWORDS, chanOK (kwChan p.2) p.2 = true := by decide +kernel
+theorem mkeywords_chan : ∀ p ∈ TokenType.MKEYWORDS, tokOK (kwChan p.2) p.2 .none = true := by decide +kernel
 theorem keywords_plain : ∀ p ∈ TokenType.KEYWORDS, plainTy p.2 = true := by decide +kernel
 
 theorem lexMacroCallStatOrLabel_chan {r : List Char} {t : TokenType} {n : Nat}
-    (h : lexMacroCallStatOrLabel r = .ok (t, n)) : chanOK (kwChan t) t = true := by
+    (h : lexMacroCallStatOrLabel r = .ok (t, n)) : tokOK (kwChan t) t .none = true := by
   unfold lexMacroCallStatOrLabel at h
   simp only at h
   split at h
@@ -220,7 +220,7 @@ theorem maybeEmitMacroSepBeforeKw_chan (ty : TokenType) {Q : Unit → Prop} (hQ 
     ChanR (maybeEmitMacroSepBeforeKw ty) Q := by
   unfold maybeEmitMacroSepBeforeKw; chan_unfold; chan_auto [hQ]
 
-theorem dispatchMacroCallOrStat_chan (cfg : Cfg) (ty : TokenType) (b : Bool) (hty : chanOK (kwChan ty) ty = true)
+theorem dispatchMacroCallOrStat_chan (cfg : Cfg) (ty : TokenType) (b : Bool) (hty : tokOK (kwChan ty) ty .none = true)
     {Q : Unit → Prop} (hQ : ∀ a, Q a) : ChanR (dispatchMacroCallOrStat cfg ty b) Q := by
   unfold dispatchMacroCallOrStat; chan_unfold
   chan_auto [hQ, maybeEmitMacroSepBeforeKw_chan, macroCallOrStatPreload_chan]
